@@ -78,7 +78,9 @@ fn multi_commodity_ledger(rng: &mut Rng) -> String {
     for t in 0..(1 + rng.usize(3)) {
         s.push_str(&format!("2024/01/{:02} multi {}\n", 1 + t, t));
         for c in comms.iter().take(k) {
-            s.push_str(&format!("    Assets:Pot{}    {} {}\n", rng.usize(2), 1 + rng.usize(50), c));
+            // account names that differ only in letter case are different accounts with a fixed order
+            let name = *rng.pick(&["Assets:Pot", "Assets:Pot", "assets:pot", "Assets:POT", "ASSETS:Pot"]);
+            s.push_str(&format!("    {}{}    {} {}\n", name, rng.usize(2), 1 + rng.usize(50), c));
         }
         s.push_str("    Equity:Opening\n\n");
     }
